@@ -400,7 +400,9 @@ pub fn run_worker<P: Prop>(a: WorkArgs) -> anyhow::Result<()> {
         let cseed = case_seed(a.seed, P::ID, &a.lane, idx);
         write_cur(&cur, idx, cseed);
         let mut rng = Rng::seed_from_u64(cseed);
-        let case = P::generate(&mut rng, a.tier, &a.lane);
+        // "<lane>-release" lanes run the generator of <lane> in the plain release build
+        let gen_lane = a.lane.strip_suffix("-release").unwrap_or(&a.lane);
+        let case = P::generate(&mut rng, a.tier, gen_lane);
         let mut obs = Obs::default();
         if let Err((loc, msg)) = catch(|| P::check(&case, &mut obs)) {
             let file = loc.split(':').next().unwrap_or("?").to_string();
@@ -489,7 +491,7 @@ pub fn run_worker<P: Prop>(a: WorkArgs) -> anyhow::Result<()> {
 }
 
 /// replay one recorded case; returns the violations it produced
-pub fn run_replay<P: Prop>(case: &Value) -> anyhow::Result<Vec<Violation>> {
+pub fn run_replay<P: Prop>(case: &Value) -> anyhow::Result<(Vec<Violation>, Vec<String>)> {
     install_quiet_panic_hook();
     let case: P::Case = serde_json::from_value(case.clone())?;
     let mut obs = Obs::default();
@@ -500,12 +502,13 @@ pub fn run_replay<P: Prop>(case: &Value) -> anyhow::Result<Vec<Violation>> {
             format!("panic at {loc}: {msg}"),
         );
     }
-    Ok(obs.violations)
+    Ok((obs.violations, obs.inconclusive))
 }
 
 /// regenerate the case of (lane, case seed) without running it
 pub fn describe_case<P: Prop>(tier: Tier, lane: &str, cseed: u64) -> Value {
     let mut rng = Rng::seed_from_u64(cseed);
+    let lane = lane.strip_suffix("-release").unwrap_or(lane);
     let case = P::generate(&mut rng, tier, lane);
     serde_json::to_value(&case).unwrap_or(Value::Null)
 }
